@@ -337,7 +337,17 @@ def rule_f(ctx):
                       "0 <= signal < %d is established before %s" % (mx, (t.get("def") or "").split("::")[-1]), t["sp"], {"lower": lower, "upper": upper})
 
 
+def rule_g(ctx):
+    """rejected inputs leak nothing: the self-pipe front-end owns the descriptor before anything can refuse by panic (shared with C13.f)"""
+    from .C13 import rule_f
+    from .C18 import _Alias
+    ctx.rule("C14.g", "the descriptor passed to pipe::register_raw is wrapped in its closing owner before any explicit panic site, so the refusal of a "
+                      "forbidden signal releases it (shared with C13.f)", floor=1)
+    rule_f(_Alias(ctx, "C14.g"))
+
+
 def run(ctx):
+    ctx.guarded("C14.g", rule_g)
     ctx.guarded("C14.a", rule_a)
     ctx.guarded("C14.b", rule_b)
     ctx.guarded("C14.c", rule_c)
